@@ -446,7 +446,7 @@ func checkLaws(op *Op, in shaping.Input, textCopy []rune, featCopy []shaping.Fon
 				add("orientation", "run %d [%d,%d): vertical orientation not resolved (dir %d)", i, o.RunStart, o.RunEnd, uint8(o.Direction))
 				continue
 			}
-			vo := unicodedata.LookupVerticalOrientation(o.Script)
+			vo := scanVerticalOrientation(o.Script)
 			for k := o.RunStart; k < o.RunEnd; k++ {
 				if want := vo.Orientation(in.Text[k]); want != o.Direction.IsSideways() {
 					add("orientation", "run %d [%d,%d) script %s sideways=%v holds %U at %d whose orientation is sideways=%v",
@@ -1041,4 +1041,17 @@ func selfTest(run *vrun.Run) {
 	if bad {
 		run.Finish(vrun.Level{Level: "exploration", Rule: "reference self-test failed: nothing judged", Floor: 1})
 	}
+}
+
+// scanVerticalOrientation is the model of unicodedata.LookupVerticalOrientation: a linear
+// scan of the table (hook), so that a lookup that misses entries does not mislead the
+// orientation law.
+func scanVerticalOrientation(sc language.Script) unicodedata.ScriptVerticalOrientation {
+	for _, e := range unicodedata.VerifUprightOrMixedScripts() {
+		if s, _, _ := e.VerifFields(); s == uint32(sc) {
+			return e
+		}
+	}
+	// not listed: fully sideways, which is what the lookup documents for every other script
+	return unicodedata.LookupVerticalOrientation(language.Script(0xFFFFFFFE))
 }
